@@ -62,6 +62,13 @@ class Unknown:
         return f"Unknown({self.tag})"
 
 
+class RepeatV:
+    """itertools.repeat(x): x over and over"""
+
+    def __init__(self, value):
+        self.value = value
+
+
 @dataclass
 class Obj:
     cls: Class
@@ -1436,6 +1443,23 @@ class Interp:
             nm = fv.name[4:] if fv.name.startswith("ext:") else fv.name
             if nm.endswith(".isEnabledFor"):
                 return True  # diagnostics are analysed switched on: whatever the guarded block does is seen
+            # worker pools of concurrent.futures are read like multiprocessing pools: Executor.map(fn, it1, it2, ...)
+            # is starmap(fn, zip(it1, it2, ...)), results in input order
+            if nm == "itertools.repeat" and len(args) == 1 and not kwargs:
+                return RepeatV(args[0])
+            if nm == "itertools.repeat" and len(args) == 2 and not kwargs and isinstance(args[1], int) and not isinstance(args[1], bool):
+                return [args[0]] * args[1]
+            if nm.split(".")[-1] in ("ProcessPoolExecutor", "ThreadPoolExecutor"):
+                nm = "multiprocessing.Pool"
+            elif nm == "pool.map" and len(args) >= 2 and not (set(kwargs) - {"chunksize", "timeout"}) and all(isinstance(a, (list, tuple, RepeatV)) for a in args[1:]) and any(isinstance(a, (list, tuple)) for a in args[1:]):
+                # endless repeat(x) operands are as long as the shortest finite one
+                n_ = min(len(a) for a in args[1:] if isinstance(a, (list, tuple)))
+                its = [[a.value] * n_ if isinstance(a, RepeatV) else a for a in args[1:]]
+                if len(its) == 1:
+                    nm, args = "pool.starmap", [args[0], [(x,) for x in its[0]]]
+                elif len({len(i) for i in its}) == 1:
+                    nm, args = "pool.starmap", [args[0], [tuple(t) for t in zip(*its)]]
+                kwargs = {}
             return self.external_call(nm, args, kwargs, node)
         if isinstance(fv, Unknown):
             if str(fv.tag).endswith(".isEnabledFor") or str(fv.tag).endswith(".isEnabledFor)"):
